@@ -126,6 +126,8 @@ func genSig(r *Rand, depth int, allow string) *sigT {
 
 func (t *sigT) String() string {
 	switch t.kind {
+	case 'R': // a signature as it stands (read back from an op line)
+		return t.name
 	case '[':
 		return "[" + t.elems[0].String() + "]"
 	case '{':
